@@ -60,3 +60,27 @@ Example C08_ex :
   /\ pair_clips [3; 1; 2]%nat [2; 3]%nat = [(1, 0); (0, 2)]%nat.
 Proof. vm_compute. split; reflexivity. Qed.
 Print Assumptions C08_ex.
+
+(* ---- which clips are evaluated, as READ FROM THE SOURCE (Gen/Source.v is regenerated from
+   soundevent/evaluation/tasks/common.py on every run; a clip prediction / annotation is represented by
+   (clip uuid, own id)): iterate_over_valid_clips lists, in the order of the predictions, exactly the
+   predictions whose clip is annotated, each with the last annotation of that clip. ---- *)
+From Coq Require Import ZArith List.
+From SE Require Gen.Source Gen.SrcClips.
+From SE Require Import Gen.Prelude.
+
+Theorem C08_src_pairs : forall preds anns,
+  Source.iterate_over_valid_clips preds anns = Ok (SrcClips.pairs_spec preds anns).
+Proof. exact SrcClips.src_pairs. Qed.
+Print Assumptions C08_src_pairs.
+
+Theorem C08_src_pairs_predictions : forall preds anns,
+  map snd (SrcClips.pairs_spec preds anns)
+  = filter (fun p => existsb (fun a => Z.eqb (fst a) (fst p)) anns) preds.
+Proof. exact SrcClips.src_pairs_predictions. Qed.
+Print Assumptions C08_src_pairs_predictions.
+
+Theorem C08_src_pairs_same_clip : forall preds anns a p,
+  In (a, p) (SrcClips.pairs_spec preds anns) -> In a anns /\ In p preds /\ fst a = fst p.
+Proof. exact SrcClips.src_pairs_same_clip. Qed.
+Print Assumptions C08_src_pairs_same_clip.
